@@ -330,6 +330,26 @@ Proof.
   destruct ok; [apply IH; assumption | assumption].
 Qed.
 
+(* killing does not look at components, purging does not look at lives *)
+Lemma kill_loop_purge es : forall w i,
+  kill_loop (purge w i) es = let '(w', ks, ok) := kill_loop w es in (purge w' i, ks, ok).
+Proof.
+  induction es as [|e r IH]; intros w i; cbn [kill_loop]; [reflexivity|].
+  change (w_alive (purge w i) e) with (w_alive w e). destruct (w_alive w e); [|reflexivity].
+  change (kill_only (purge w i) e) with (purge (kill_only w e) i). rewrite IH.
+  destruct (kill_loop (kill_only w e) r) as [[w' ks] ok]. reflexivity.
+Qed.
+
+Theorem delete_many_stmt_eq es : forall w, sl_delete_many_stmt w es = sl_delete_many w es.
+Proof.
+  induction es as [|e r IH]; intros w; [reflexivity|].
+  cbn [sl_delete_many]. unfold sl_delete_many_stmt. cbn [kill_loop]. unfold sl_delete.
+  destruct (w_alive w e); [|reflexivity].
+  change (with_life w (set_cell (sl_life w) (fst e) (Free (snd e))) (fst e :: sl_free w)) with (kill_only w e).
+  rewrite <- IH. unfold sl_delete_many_stmt. rewrite kill_loop_purge.
+  destruct (kill_loop (kill_only w e) r) as [[w' ks] ok]. reflexivity.
+Qed.
+
 Lemma Inv_edelete w e : Inv w -> Inv (fst (sl_edelete w e)).
 Proof.
   intros HI. unfold sl_edelete, l_kill_def. destruct (l_is_alive (sl_life w) e) eqn:A; cbn [fst].
